@@ -2,7 +2,7 @@ import J5V.Props.C13
 #print axioms J5V.Props.C13.C13_append_field
 #print axioms J5V.Props.C13.C13_append_field_nested
 #print axioms J5V.Props.C13.C13_append_field_numbers
-#print axioms J5V.Props.C13.C13_append_option_counterexample
-#print axioms J5V.Props.C13.C13_append_option_partial
+#print axioms J5V.Props.C13.C13_append_option
+#print axioms J5V.Props.C13.C13_enum_zero_stable
 #print axioms J5V.Props.C13.C13_append_option_seq
 #print axioms J5V.Props.C13.C13_append_field_seq
